@@ -112,9 +112,8 @@ def wrapping(repo, res):
     # __getitem__
     gi = arr.func("unyt_array.__getitem__")
     res.fn(gi)
-    blk = [n for n in gi.body if isinstance(n, ast.If)]
-    ok = len(blk) == 1 and norm(blk[0].test) == "getattr(ret, 'shape', None) == ()" and any(norm(s).startswith("ret = unyt_quantity(ret, bypass_validation=True") for s in blk[0].body)
-    res.check(ok, "getitem:0-d", gi.where(), "an index that yields a scalar yields a unyt_quantity", rid=r1)
+    ok, n0 = _getitem_paths(gi)[0:2]
+    res.check(ok and n0 >= 1, "getitem:0-d", gi.where(), "an index that yields a scalar yields a unyt_quantity", rid=r1)
     # Unit.__mul__ with data
     um = repo.mod(UO).func("Unit.__mul__")
     res.fn(um)
@@ -262,15 +261,44 @@ def accessors(repo, res):
     res.check(b2 is not None, "coerce-list:test", co.where(), "mixed units are detected by comparing every element's unit with the first", rid=r2)
 
 
+def _getitem_paths(gi):
+    """path summaries of unyt_array.__getitem__ (locals substituted, layout-independent):
+    (a 0-d result is wrapped in unyt_quantity, number of 0-d paths, the wrapped scalar gets name=self.name and
+    .units = self.units, every other path returns NumPy's own result untouched)"""
+    from engine.sem import summarise
+
+    item = gi.params[1]
+    base = f"super().__getitem__({item})"
+    zero_t = f"getattr({base}, 'shape', None) == ()"
+    q_ok, n0, meta_ok, view_ok = True, 0, True, True
+    n_other = 0
+    for x in summarise(gi):
+        if x.kind != "return":
+            q_ok = meta_ok = view_ok = False
+            continue
+        if x.has(zero_t, True):
+            n0 += 1
+            ctors = [e for e in x.effects if e.startswith(f"unyt_quantity({base}") and " = " not in e]
+            q_ok &= len(ctors) == 1 and "bypass_validation=True" in ctors[0]
+            meta_ok &= len(ctors) == 1 and "name=self.name" in ctors[0] and f"{ctors[0]}.units = self.units" in x.effects
+            # what is returned is that object: a local (the value is not substituted once it has been written to) or
+            # the constructor expression itself
+            q_ok &= x.value != base
+        elif x.has(zero_t, False):
+            n_other += 1
+            view_ok &= x.value == base and not any(" = " in e for e in x.effects)
+        else:
+            q_ok = view_ok = False
+    return q_ok, n0, meta_ok and n0 >= 1, view_ok and n_other >= 1
+
+
 def metadata(repo, res):
     r3 = res.rule("C16-R3", "indexing and views keep units and name", floor=3)
     arr = repo.mod(ARR)
     gi = arr.func("unyt_array.__getitem__")
-    t = [norm(s) for s in ast.walk(gi.node) if isinstance(s, ast.Assign)]
-    res.check("ret.units = self.units" in t and any("name=self.name" in x for x in t), "getitem:metadata", gi.where(), "a scalar obtained by indexing carries the parent's units and name", rid=r3)
-    first = gi.body[0]
-    last = gi.body[-1]
-    res.check(norm(first) == f"ret = super().__getitem__({gi.params[1]})" and isinstance(last, ast.Return) and norm(last.value) == "ret", "getitem:result", gi.where(), "non-scalar results are NumPy's own view (units copied by __array_finalize__)", rid=r3)
+    _q, _n0, meta_ok, view_ok = _getitem_paths(gi)
+    res.check(meta_ok, "getitem:metadata", gi.where(), "a scalar obtained by indexing carries the parent's units and name", rid=r3)
+    res.check(view_ok, "getitem:result", gi.where(), "non-scalar results are NumPy's own view (units copied by __array_finalize__)", rid=r3)
     fz = arr.func("unyt_array.__array_finalize__")
     t = [norm(s) for s in fz.body]
     res.check(t == [f"self.units = getattr({fz.params[1]}, 'units', NULL_UNIT)", f"self.name = getattr({fz.params[1]}, 'name', None)"], "finalize", fz.where(), "views and templates inherit units and name", found=t, rid=r3)
